@@ -6,9 +6,11 @@ C14 — representation-only options do not change what the models accept.
 
 Stage 1 (`Dcg.Model.Translate.tr`) takes the whole option vector `Opts`; the theorems below say
 which of its fields can influence the verdict `acceptsTy` of the generated model.
-Options that do not reach stage 1 at all (target version, formatters, keep_model_order) and the
-post-passes reuse_model / collapse_root_models are NOT modelled: for them the property rests on the
-differential oracle between two real runs (vlib/props/c14.py).
+Every option of the property text is a field of `Opts`. Options that act after stage 1: the order of the
+classes (`keep_model_order`) is proved immaterial, a `reuse_model` merge is proved sound for identical
+classes (that the real pass merges only those is a run-time campaign), `collapse_root_models` is proved for
+unconstrained root models and refuted for constrained ones (D39); target version, formatters and quotes
+change text only — differential oracle between two real runs (vlib/props/c14.py).
 -/
 namespace Dcg.Props.C14
 open Dcg.Sem Dcg.Sem.Pyd Dcg.Model.Constraints Dcg.Model.Translate Dcg.Proofs.Sem
@@ -40,6 +42,95 @@ the `Field()` call is written. -/
 theorem annotated_invariant (st : Style) (o : Opts) (a : Bool) (ctx : Ctx) (s : Schema) :
     tr st { o with useAnnotated := a } ctx s = tr st o ctx s :=
   tr_congr st { o with useAnnotated := a } o rfl ctx s
+
+/-! ### the remaining options of the property text
+
+`keep_model_order`, `reuse_model`, `collapse_root_models`, `target_python_version` and the choice of
+formatters act AFTER stage 1 (model post-processing passes, the writer). What can be said in the model:
+stage 1 does not read them (necessary, not sufficient); the order of the classes is immaterial to the
+verdicts; two names bound to one class are interchangeable (what `reuse_model` produces when — and only
+when — it merges classes with identical IR: the run-time campaign `reuse merges ⇒ identical IR` checks the
+"only when" on the real pass); inlining a root model is sound exactly when its constraints travel along.
+`target_python_version`, the formatters and `use_double_quotes` only change text: DIFFERENTIAL ONLY. -/
+
+/-- stage 1 does not read the options of the later passes, the target version or the formatters: same
+IR for every schema, place and style -/
+theorem later_options_not_in_stage1 (st : Style) (o : Opts) (a b c f : Bool) (m : Nat) (ctx : Ctx) (s : Schema) :
+    tr st { o with keepModelOrder := a, reuseModel := b, collapseRootModels := c, targetMinor := m,
+                   formatters := f } ctx s = tr st o ctx s :=
+  tr_congr st { o with keepModelOrder := a, reuseModel := b, collapseRootModels := c, targetMinor := m,
+                       formatters := f } o rfl ctx s
+
+theorem trDefs_eq_map (st : Style) (o : Opts) (defs : Defs) :
+    trDefs st o defs = defs.map (fun p => (p.1, tr st o .top p.2)) := by
+  induction defs with
+  | nil => rfl
+  | cons p ps ih => simp [trDefs, ih]
+
+/-- `keep_model_order` / the sorting passes: the ORDER of the definitions (distinct names) is immaterial —
+for every permutation of the definitions, every type, value and fuel the verdict is the same.
+(What the option does break on the pinned tree — a class written before a class it uses eagerly, known
+finding D38 — is an import-time error of the written module, outside the IR.) -/
+theorem keep_model_order_invariant (st : Style) (re : Regex) (o : Opts) (defs defs' : Defs)
+    (hp : defs.Perm defs') (hn : namesNodup (defs.map (·.1)) = true) (g : Nat) (t : Ty) (v : Json) :
+    acceptsTy st re g (trDefs st o defs) t v = acceptsTy st re g (trDefs st o defs') t v := by
+  apply acceptsTy_congr_defs
+  intro n
+  rw [trDefs_eq_map, trDefs_eq_map]
+  refine lookup_perm (hp.map _) ?_ n
+  rw [List.map_map]
+  exact hn
+
+/-- non-vacuity: two definitions in either order -/
+example : [("A".toList, Schema.any), ("B".toList, Schema.null)].Perm [("B".toList, Schema.null), ("A".toList, Schema.any)] ∧
+    namesNodup ([("A".toList, Schema.any), ("B".toList, Schema.null)].map (·.1)) = true :=
+  ⟨List.Perm.swap _ _ _, by decide⟩
+
+/-- `reuse_model`, soundness of a merge: when two names are bound to the SAME class (identical IR: fields,
+required flags, constraints, types and `extra`), a reference to one accepts exactly what a reference to
+the other accepts, and `class B(A): pass` (how the pass writes the duplicate) accepts an object exactly as
+`A` does. -/
+theorem reuse_merge_sound (st : Style) (re : Regex) (D : IRDefs) (a b : List Char)
+    (h : D.lookup a = D.lookup b) (g : Nat) (v : Json) (kvs : List (List Char × Json)) (e : Extra) :
+    acceptsTy st re g D (.ref a) v = acceptsTy st re g D (.ref b) v ∧
+    acceptsTy st re (g + 1) D (.derived [a] [] e) (.obj kvs) = acceptsTy st re (g + 1) D (.ref a) (.obj kvs) := by
+  constructor
+  · cases g with
+    | zero => rfl
+    | succ g => simp only [acceptsTy, h]
+  · simp only [acceptsTy, List.map, Tri.all, List.foldr, and_accept]
+
+/-- WITNESS that the key of the merge must include the whole class: twins that differ only in `extra`
+(`additionalProperties: false` vs `true`) or only in a constant do NOT accept the same values -/
+theorem reuse_must_distinguish :
+    acceptsTy .v2 (fun _ _ => true) 3 [] (tr .v2 {} .top (.object [("n".toList, .scalar .integer false {})] [] .forbid))
+      (.obj [("zz".toList, .num ⟨1, 0⟩)]) = .reject ∧
+    acceptsTy .v2 (fun _ _ => true) 3 [] (tr .v2 {} .top (.object [("n".toList, .scalar .integer false {})] [] .allow))
+      (.obj [("zz".toList, .num ⟨1, 0⟩)]) = .accept ∧
+    acceptsTy .v2 (fun _ _ => true) 3 [] (tr .v2 {} .top (.object [("kind".toList, .const (.str "Cat".toList))] ["kind".toList] .absent))
+      (.obj [("kind".toList, .str "Dog".toList)]) = .reject ∧
+    acceptsTy .v2 (fun _ _ => true) 3 [] (tr .v2 {} .top (.object [("kind".toList, .const (.str "Dog".toList))] ["kind".toList] .absent))
+      (.obj [("kind".toList, .str "Dog".toList)]) = .accept := by decide +kernel
+
+/-- `collapse_root_models`, the sound case: a reference to a root model WITHOUT constraints of its own may
+be replaced by the root type (two levels of fuel shallower) -/
+theorem collapse_unconstrained_root (st : Style) (re : Regex) (D : IRDefs) (n : List Char) (inner : Ty)
+    (h : D.lookup n = some (.root {} inner)) (g : Nat) (v : Json) :
+    acceptsTy st re (g + 2) D (.ref n) v = acceptsTy st re g D inner v := by
+  simp only [acceptsTy, h, checkCons_empty, and_accept]
+
+/-- REFUTATION for a root model WITH constraints (known finding D39): the definition
+`L = {"type":"array","items":{"type":"integer"},"minItems":2}` is a root model carrying `min_length=2`;
+`--collapse-root-models` (without `--field-constraints`) writes the member as `List[int]`, and `[1]`, rejected
+through the reference, is accepted by the collapsed type. -/
+theorem collapse_constrained_root_D39 :
+    let D := trDefs .v2 {} [("L".toList, .array (.scalar .integer false {}) (some 2) none)]
+    (match D.lookup "L".toList with
+      | some (.root c (.list _)) => c.minLength == some 2   -- the root model carries `min_length=2`
+      | _ => false) = true ∧
+    acceptsTy .v2 (fun _ _ => true) 5 D (.ref "L".toList) (.arr [.num ⟨1, 0⟩]) = .reject ∧
+    acceptsTy .v2 (fun _ _ => true) 3 D (.list (.scalar .integer {})) (.arr [.num ⟨1, 0⟩]) = .accept := by
+  decide +kernel
 
 /-- Constraint routing does not change the keyword pydantic reports (from C04.keyword_roundtrip). -/
 theorem routing_reports_same_keywords :
